@@ -144,6 +144,26 @@ def run_schedule(schedule):
     helper = sc.SigchldHelper()
     old_instance = sc.SigchldHelper._Instance  # pylint: disable=protected-access
     sc.SigchldHelper._Instance = helper  # pylint: disable=protected-access
+    # the executor's layer on top: _InflightOperations.wait_for_next_op() calls wait() until the pid is one it registered
+    import conductor.execution.executor as ex_mod
+    from conductor.execution.handle import OperationExecutionHandle
+
+    inflight_ops = ex_mod._InflightOperations()  # pylint: disable=protected-access
+    w.op_results = []
+    w.known = set()
+    real_wait = helper.wait
+
+    def logged_wait():
+        w.log.append(("call",))
+        w.pc = 1
+        w.run_handler()                       # function entry is a bytecode boundary
+        pid, rc = real_wait()
+        w.log.append(("test",))               # the evaluation that ended the loop
+        w.pc = 0
+        w.returned.append((pid, rc))
+        return pid, rc
+
+    helper.wait = logged_wait
     patch(sc.os, "pipe", w.pipe_)
     patch(sc.os, "set_blocking", w.set_blocking)
     patch(sc.os, "waitpid", w.waitpid)
@@ -163,6 +183,9 @@ def run_schedule(schedule):
                 ev = rest.pop(0)
                 if ev[0] == "spawn":
                     w.running += 1
+                    if len(ev) > 1 and ev[2]:      # ("spawn", pid, registered?)
+                        w.known.add(ev[1])
+                        inflight_ops.add_op(OperationExecutionHandle.from_async_process(ev[1]), "op-%d" % ev[1])
                 elif ev[0] == "exit":
                     w.running -= 1
                     w.exit_child(ev[1], ev[2])
@@ -171,20 +194,18 @@ def run_schedule(schedule):
                 elif ev[0] == "handler":
                     w.run_handler()
                 elif ev[0] == "wait":
-                    w.log.append(("call",))
-                    w.pc = 1
-                    w.run_handler()                       # function entry is a bytecode boundary
                     # while wait() sleeps in read(), the environment events that follow in the schedule happen (the
                     # scheduled handler runs / further wait() calls in between cannot: they are dropped)
                     w.schedule = rest
                     try:
-                        pid, rc = helper.wait()
+                        if w.known and len(inflight_ops) > 0:
+                            handle, _op = inflight_ops.wait_for_next_op()
+                            w.op_results.append((handle.pid, handle.returncode))
+                        else:
+                            helper.wait()
                     except Blocked:
                         blocked = True
                         break
-                    w.log.append(("test",))               # the evaluation that ended the loop
-                    w.pc = 0
-                    w.returned.append((pid, rc))
                     w.schedule = []
             w.final_rcs = list(helper._returncodes)  # pylint: disable=protected-access
         finally:
@@ -220,8 +241,13 @@ def ser_world(w):
 
 def gen_schedule(rng):
     n = rng.randint(1, 6)
-    sched = [("spawn",)] * n
     pids = list(range(100, 100 + n))
+    # some children are not the executor's (started by a wrapper before exec, or by a library): they are reaped and ignored
+    mixed = rng.random() < 0.4
+    reg = {p: (not mixed or rng.random() < 0.6) for p in pids}
+    if mixed and not any(reg.values()):
+        reg[pids[0]] = True
+    sched = [("spawn", p, reg[p]) for p in pids]
     rng.shuffle(pids)
     pending = list(pids)
     waits = 0
@@ -237,14 +263,14 @@ def gen_schedule(rng):
             sched.append(("deliver",))
         elif r < 0.6:
             sched.append(("handler",))
-        elif waits < n:
+        elif waits < sum(1 for p in reg if reg[p]):
             sched.append(("wait",))
             waits += 1
     # the kernel eventually delivers what is pending, and the executor waits for every task it started
     for p in pending:
         sched.append(("exit", p, rng.choice([0, 2, 128 + 9])))
     sched.append(("deliver",))
-    while waits < n:
+    while waits < sum(1 for p in reg if reg[p]):
         sched.append(("wait",))
         sched.append(("deliver",))
         waits += 1
@@ -255,6 +281,9 @@ def protocol_part(chk, tier):
     rng = chk.rng
     n = 400 if tier == "quick" else 6000
     cases = [
+        # an unrelated child exits with 0 just before the executor's task exits with 3
+        [("spawn", 50, False), ("spawn", 51, True), ("wait",), ("exit", 50, 0), ("deliver",), ("exit", 51, 3), ("deliver",)],
+        [("spawn", 50, False), ("spawn", 51, True), ("exit", 50, 5), ("exit", 51, 0), ("deliver",), ("wait",)],
         # the D17 schedule: the exit is signalled after the loop test and before read() blocks
         [("spawn",), ("wait",), ("exit", 7, 0), ("deliver",)],
         # one SIGCHLD for three exits
@@ -280,6 +309,12 @@ def protocol_part(chk, tier):
                 problems.append("exits %r but returned + recorded + unreaped = %r (an exit was lost, duplicated or attributed to the wrong process)" % (sorted(happened), acc))
             if len(set(p for p, _ in w.returned)) != len(w.returned):
                 problems.append("wait() returned the same process twice: %r" % w.returned)
+            exit_rc = dict(happened)
+            for pid, rc in w.op_results:
+                if pid not in w.known:
+                    problems.append("wait_for_next_op() handed the executor process %r, which it never registered" % (pid,))
+                elif exit_rc.get(pid) != rc:
+                    problems.append("wait_for_next_op() reported status %r for process %d, which exited with %r (a foreign child's status was charged to it)" % (rc, pid, exit_rc.get(pid)))
         chk.count("reaper-protocol", "blocked" if w.blocked else "completed")
         chk.count("reaper-protocol-batch", "several exits per delivery" if any(sched[i][0] == "exit" and sched[i + 1][0] == "exit" for i in range(len(sched) - 1)) else "single")
         for msg in problems:
